@@ -119,17 +119,23 @@ P['C08']={
  "assumptions":["A-ENVOY-LOWER: Envoy sends lower-case header keys (the criterion header is looked up under its lower-cased name, as the code assumes)","ChainsResolved: every filter is a mock or an OIDC filter with a resolved configuration (established by configuration loading, C17)"],
  "note":"the ghost log of Handler.Process invocations states which filters ran, in which order, and that evaluation stopped at the first denial; handler construction (NewOIDCHandler) is an assumed contract"}
 MS="oidc.memoryStore."
+RS="oidc.redisStore."
+METHS=["SetTokenResponse","GetTokenResponse","SetAuthorizationState","GetAuthorizationState","ClearAuthorizationState","RemoveSession"]
 P['C12']={
- "refines":[MS+"SetTokenResponse",MS+"GetTokenResponse",MS+"SetAuthorizationState",MS+"GetAuthorizationState",MS+"ClearAuthorizationState",MS+"RemoveSession"],
+ "refines":[MS+m for m in METHS]+[RS+m for m in METHS],
+ "functions":["oidc.NewRedisStore"],
+ "sweep":["oidc.init"],
  "lemmas":["L-onlysid-ext"],
- "required":[MS+"GetTokenResponse:refine:SessionStore.GetTokenResponse.got", MS+"SetTokenResponse:refine:SessionStore.SetTokenResponse.ok", MS+"RemoveSession:refine:SessionStore.RemoveSession.ok", MS+"ClearAuthorizationState:refine:SessionStore.ClearAuthorizationState.ok", MS+"SetTokenResponse:refine:repinv.distinct", MS+"GetTokenResponse:pre@call:sync.Mutex.Lock.not_held"],
- "note":"memory store only (see level note): every method refines the abstract-map contract of SessionStore under the abstraction MemView, keeps the representation invariants, and acquires / releases the store mutex exactly once around its accesses"}
+ "required":[RS+"GetTokenResponse:refine:SessionStore.GetTokenResponse.got", RS+"GetAuthorizationState:refine:SessionStore.GetAuthorizationState.got", RS+"SetTokenResponse:refine:SessionStore.SetTokenResponse.ok", RS+"SetAuthorizationState:refine:SessionStore.SetAuthorizationState.ok", RS+"RemoveSession:refine:SessionStore.RemoveSession.ok", RS+"ClearAuthorizationState:refine:SessionStore.ClearAuthorizationState.ok", RS+"SetTokenResponse:refine:repinv.dbwf", RS+"SetTokenResponse:refine:SessionStore.SetTokenResponse.frame_pw", "oidc.init:post:pkginv.rediskeys", "oidc.NewRedisStore:post:fields",
+ MS+"GetTokenResponse:refine:SessionStore.GetTokenResponse.got", MS+"SetTokenResponse:refine:SessionStore.SetTokenResponse.ok", MS+"RemoveSession:refine:SessionStore.RemoveSession.ok", MS+"ClearAuthorizationState:refine:SessionStore.ClearAuthorizationState.ok", MS+"SetTokenResponse:refine:repinv.distinct", MS+"GetTokenResponse:pre@call:sync.Mutex.Lock.not_held"],
+ "note":"both stores: every method refines the abstract-map contract of SessionStore under the abstraction MemView, keeps the representation invariants, and acquires / releases the store mutex exactly once around its accesses"}
 P['C10']={
  "posts":{H+"Process":["ok_not_timed_out","ok_justified"]},
- "refines":[MS+"GetTokenResponse",MS+"GetAuthorizationState",MS+"SetTokenResponse",MS+"SetAuthorizationState",MS+"ClearAuthorizationState",MS+"RemoveSession"],
+ "refines":[MS+m for m in METHS]+[RS+m for m in METHS],
  "lemmas":["L-onlysid-ext","L-timedout-monotone"],
- "required":[MS+"GetTokenResponse:refine:SessionStore.GetTokenResponse.timeout", MS+"GetAuthorizationState:refine:SessionStore.GetAuthorizationState.timeout", MS+"GetTokenResponse:refine:SessionStore.GetTokenResponse.kept_inside", H+"Process:post:ok_not_timed_out"],
- "note":"memory store only (see level note)"}
+ "required":[RS+"GetTokenResponse:refine:SessionStore.GetTokenResponse.timeout", RS+"GetAuthorizationState:refine:SessionStore.GetAuthorizationState.timeout", RS+"GetTokenResponse:refine:SessionStore.GetTokenResponse.kept_inside", RS+"GetTokenResponse:refine:SessionStore.GetTokenResponse.refreshed", RS+"SetTokenResponse:refine:repinv.dbwf", RS+"SetAuthorizationState:refine:repinv.dbwf", MS+"GetTokenResponse:refine:SessionStore.GetTokenResponse.refreshed", MS+"SetTokenResponse:refine:SessionStore.SetTokenResponse.refreshed",
+ MS+"GetTokenResponse:refine:SessionStore.GetTokenResponse.timeout", MS+"GetAuthorizationState:refine:SessionStore.GetAuthorizationState.timeout", MS+"GetTokenResponse:refine:SessionStore.GetTokenResponse.kept_inside", H+"Process:post:ok_not_timed_out"],
+ "note":"both stores at store level; the memory store's wiring through PreRun is C18"}
 I="internal."
 P['C17']={
  "quick_timeout_s":75,
